@@ -8,7 +8,7 @@ namespace Pdlv
 namespace JavaSpec
 
 /-- **C19, dispatch: whatever is returned is right.**  For every root packet with a tree of children whose own fields are in
-    the class of the parser theorem (`JavaSpec.wfNode`: decidable, evaluated per run), both byte orders and EVERY byte string
+    the class of the parser theorems, struct-typed fields of static size included (`JavaSpec.wfNode`: decidable, evaluated per run), both byte orders and EVERY byte string
     a `byte[]` can hold: if `Root.fromBytes(b)` returns an object of class `T` with field values `v`, then the reference
     `decode_full` accepts `b` as the root, and `T` is either the root itself (its fallback child `Unknown<Root>`) with the
     reference's values, or is reached from one of the root's children by one reference `decode_partial` per level —
@@ -31,13 +31,11 @@ theorem java_dispatch_is_sound (c : Cfg) (nm : String) (items : Items) (fb : Boo
     by_cases hre : rest.isEmpty = true
     · simp only [hre, ↓reduceIte, Outcome.ok.injEq] at h3
       subst h3
-      have hj : Java.decodeFull c (.root nm items) bs = .ok (assemble st []) := by
-        have h1' : Java.decItems c.e items bs DState.empty = .ok (st, rest) := by
-          rw [← Java.decItemsS_eq c.e items hw.1]; exact h1
-        simp only [Java.decodeFull, h1', Outcome.bind, hre, ↓reduceIte, assemble, List.append_nil]
+      have hj : Java.decodeFullS c (.root nm items) bs = .ok (assemble st []) := by
+        simp only [Java.decodeFullS, h1, Outcome.bind, hre, ↓reduceIte, assemble, List.append_nil]
         generalize st.payload = q
         cases q <;> rfl
-      have hr := (Java.decode_same2 c nm items hw.1 bs (by omega) _).mp hj
+      have hr := (Java.decode_same3 c nm items hw.1 bs (by omega) _).mp hj
       refine ⟨assemble st [], hr, ?_⟩
       by_cases hpl : items.hasPayload = true
       · simp only [hpl, ↓reduceIte] at hd
